@@ -413,7 +413,7 @@ def _check_ref_roles(ctx, rf, m):
         elif ('isinstance(%s, Packet)' % sel) in gt:
             seen.add('packet')
             st_ = [e for e in p.effects if e.kind == 'setattr' and canon(e.name) == 'self.field_name']
-            ok = len(st_) == 1 and r is not None and canon(r) == canon(st_[0].value) + '.unpack_impl(raw, offset, **k)'
+            ok = len(st_) == 1 and r is not None and canon(r) in (canon(st_[0].value) + '.unpack_impl(raw, offset, **k)', canon(st_[0].value) + '.unpack_impl(**k, offset=offset, raw=raw)')
             if ok and canon(st_[0].value) == sel:
                 # the very object the selector returned is parsed into and kept
                 ctx.violation(rule, fi, 'selector -> Packet: store the selector\'s object; return it.unpack_impl(raw, offset, **k)', 'the packet the selector hands out is parsed into and stored, not a new instance of its class: a selector that hands out the same packet every time (chooses({..: APacket()})) makes every result, and every element of a repeated reference, the same object -- the first result packs as the last one parsed', fi.node.lineno, clause='f', witness=True)
